@@ -652,15 +652,14 @@ fn iter_segments(
 
     // Now work out source slices, and add in template placeholders.
     for element in lexed_elements {
-        let consumed_element_length = 0;
+        let mut consumed_element_length = 0;
         let mut stashed_source_idx = None;
 
-        for (idx, tfs) in templated_file_slices
-            .iter()
-            .skip(tfs_idx)
-            .enumerate()
-            .map(|(i, tfs)| (i + tfs_idx, tfs))
-        {
+        for (idx, tfs) in templated_file_slices.iter().enumerate().skip(tfs_idx) {
+            // The cursor follows the slice we are looking at, so that the next
+            // element resumes where this one stopped.
+            tfs_idx = idx;
+
             // Is it a zero slice?
             if is_zero_slice(&tfs.templated_slice) {
                 let _slice = if idx + 1 < templated_file_slices.len() {
@@ -673,19 +672,25 @@ fn iter_segments(
             }
 
             if tfs.slice_type == "literal" {
-                let tfs_offset = tfs.source_slice.start - tfs.templated_slice.start;
+                // The offset is negative once replacements are longer than their
+                // placeholders.
+                let tfs_offset =
+                    tfs.source_slice.start as isize - tfs.templated_slice.start as isize;
+                let to_source =
+                    |templated_idx: usize| (templated_idx as isize + tfs_offset) as usize;
 
                 // NOTE: Greater than OR EQUAL, to include the case of it matching
                 // length exactly.
                 if element.template_slice.end <= tfs.templated_slice.end {
                     let slice_start = stashed_source_idx.unwrap_or_else(|| {
-                        element.template_slice.start + consumed_element_length + tfs_offset
+                        to_source(element.template_slice.start + consumed_element_length)
                     });
 
                     result.push(element.to_segment(
                         PositionMarker::new(
-                            slice_start..element.template_slice.end + tfs_offset,
-                            element.template_slice.clone(),
+                            slice_start..to_source(element.template_slice.end),
+                            element.template_slice.start + consumed_element_length
+                                ..element.template_slice.end,
                             templated_file.clone(),
                             None,
                             None,
@@ -718,37 +723,38 @@ fn iter_segments(
                     // NOTE: We should probably make this configurable on the
                     // matcher object, but for now we're going to look for the
                     // name of the lexer.
-                    if element.matcher.name == "whitespace" {
-                        if stashed_source_idx.is_some() {
-                            panic!("Found literal whitespace with stashed idx!")
-                        }
-
-                        let incremental_length =
-                            tfs.templated_slice.end - element.template_slice.start;
+                    // Whitespace which already spilled out of a templated slice
+                    // (stashed start) is kept whole, like any other element.
+                    if element.matcher.name == "whitespace" && stashed_source_idx.is_none() {
+                        // We *can* split it! Consume what we can from this slice
+                        // and move on.
+                        let piece_start = element.template_slice.start + consumed_element_length;
+                        let incremental_length = tfs.templated_slice.end - piece_start;
 
                         result.push(element.to_segment(
                             PositionMarker::new(
-                                element.template_slice.start + consumed_element_length + tfs_offset
-                                    ..tfs.templated_slice.end + tfs_offset,
-                                element.template_slice.clone(),
+                                to_source(piece_start)..to_source(tfs.templated_slice.end),
+                                piece_start..tfs.templated_slice.end,
                                 templated_file.clone(),
                                 None,
                                 None,
                             ),
                             offset_slice(consumed_element_length, incremental_length).into(),
                         ));
+                        consumed_element_length += incremental_length;
+                        continue;
                     } else {
                         // We can't split it. We're going to end up yielding a segment
                         // which spans multiple slices. Stash the type, and if we haven't
                         // set the start yet, stash it too.
                         // lexer_logger.debug("     Spilling over literal slice.")
                         if stashed_source_idx.is_none() {
-                            stashed_source_idx = (element.template_slice.start + idx).into();
+                            stashed_source_idx = Some(to_source(element.template_slice.start));
                             // lexer_logger.debug(
                             //     "     Stashing a source start. %s", stashed_source_idx
                             // )
-                            continue;
                         }
+                        continue;
                     }
                 }
             } else if matches!(tfs.slice_type.as_str(), "templated" | "block_start") {
@@ -771,16 +777,15 @@ fn iter_segments(
                         // span of the source slice for the file slice.
                         // If we've got an existing stashed source start, use that
                         // as the start of the source slice.
-                        let slice_start = if let Some(stashed_source_idx) = stashed_source_idx {
-                            stashed_source_idx
-                        } else {
-                            tfs.source_slice.start + consumed_element_length
-                        };
+                        // NOTE: what is left of a split element maps to the whole
+                        // source slice, we can't subdivide a templated slice.
+                        let slice_start = stashed_source_idx.unwrap_or(tfs.source_slice.start);
 
                         result.push(element.to_segment(
                             PositionMarker::new(
                                 slice_start..tfs.source_slice.end,
-                                element.template_slice.clone(),
+                                element.template_slice.start + consumed_element_length
+                                    ..element.template_slice.end,
                                 templated_file.clone(),
                                 None,
                                 None,
